@@ -25,6 +25,7 @@ pub struct Spec {
     pub kind: String,
     pub use_double: Option<bool>,
     pub large_factor: Option<u64>,
+    pub fb_size: Option<u32>,
 }
 
 impl Spec {
@@ -32,6 +33,7 @@ impl Spec {
         json!({
             "use_double": self.use_double,
             "large_factor": self.large_factor,
+            "fb_size": self.fb_size,
             "d": format!("-{}", self.dabs),
             "bits": 128 - self.dabs.leading_zeros(),
             "dabs_prime_factors": self.primes.iter().map(|p| p.to_string()).collect::<Vec<_>>(),
@@ -48,6 +50,7 @@ impl Spec {
             kind: v["kind"].as_str().unwrap_or("").to_string(),
             use_double: v["use_double"].as_bool(),
             large_factor: v["large_factor"].as_u64(),
+            fb_size: v["fb_size"].as_u64().map(|x| x as u32),
         }
     }
 }
@@ -127,12 +130,16 @@ pub fn gen_spec(rng: &mut Rng, tier: Tier) -> Spec {
         // preference knobs: double large primes are off by default below 180 bits
         let use_double = if rng.chance(0.35) { Some(true) } else { None };
         let large_factor = if rng.chance(0.4) { Some(*rng.pick(&[2u64, 10, 50, 200])) } else { None };
+        // a factor base above 800 primes switches the group structure to the sparse path, whose CRT determinant
+        // and lattice index run on the thread pool
+        let fb_size = if bits >= 40 && rng.chance(0.04) { Some(rng.range(820, 1000) as u32) } else { None };
         return Spec {
             dabs,
             primes,
             kind: name.to_string(),
             use_double,
             large_factor,
+            fb_size,
         };
     }
 }
@@ -161,7 +168,7 @@ fn scratch_dir() -> PathBuf {
 
 pub fn run_cls(spec: &Spec, threads: Option<usize>, with_pred: bool, cfg: SimConfig) -> RunOut {
     let dabs = spec.dabs;
-    let (use_double, large_factor) = (spec.use_double, spec.large_factor);
+    let (use_double, large_factor, fb_size) = (spec.use_double, spec.large_factor, spec.fb_size);
     let dir = scratch_dir();
     let dir2 = dir.clone();
     let (sim, res) = run_sim(cfg, move || {
@@ -171,6 +178,7 @@ pub fn run_cls(spec: &Spec, threads: Option<usize>, with_pred: bool, cfg: SimCon
         prefs.outdir = Some(dir2);
         prefs.use_double = use_double;
         prefs.large_factor = large_factor;
+        prefs.fb_size = fb_size;
         if with_pred {
             prefs.should_abort = Some(Box::new(simcore::probe::abort_poll));
         }
@@ -378,9 +386,12 @@ fn check_group<T: FInt>(
             }
         },
     }
-    // G3: structure
+    // G3: structure. The sparse linear-algebra path (factor base above 800 primes or h above 2^128) returns the
+    // class number only ("FIXME: structure is incomplete" in group_structure_sparse): nothing is listed, so there
+    // is no structure to judge; G1, G2 and G5 still apply.
     let prod: u128 = g.invariants.iter().product();
-    if prod != g.h {
+    let no_structure = g.invariants.is_empty() && g.gens.is_empty() && g.h > 1;
+    if prod != g.h && !no_structure {
         v.push((
             "G3_invariants_multiply_to_h".into(),
             "oracle:invariants_product".into(),
@@ -489,8 +500,17 @@ fn check_group<T: FInt>(
             }
         }
     }
-    // G5: h * [p] = 1 for every generator (always)
-    for (p, _) in g.gens.iter().take(16) {
+    // G5: h * [p] = 1 for every generator (always); without listed generators, for the primes of the relation file
+    let g5_primes: Vec<u32> = if g.gens.is_empty() {
+        let mut v: Vec<u32> = lines.iter().flat_map(|l| l.iter().map(|t| t.unsigned_abs() as u32)).collect();
+        v.sort();
+        v.dedup();
+        v.truncate(16);
+        v
+    } else {
+        g.gens.iter().take(16).map(|x| x.0).collect()
+    };
+    for p in g5_primes.iter() {
         if let Some(f) = ctx.prime(*p as u64) {
             if !f.pow(g.h, d).is_identity(d) {
                 v.push((
@@ -615,6 +635,9 @@ impl Family for ClsgrpFamily {
         rep.stat(&format!("kind_{}", spec.kind), 1);
         if spec.use_double == Some(true) {
             rep.stat("scenarios_with_double_large_primes", 1);
+        }
+        if spec.fb_size.is_some() {
+            rep.stat("scenarios_with_sparse_group_structure_path", 1);
         }
         crate::common::phase(idx, "reference");
         let mut rcfg = SimConfig::reference(derive(seed, prop, idx, "reference"));
